@@ -531,6 +531,7 @@ func C02() int {
 	outcomes := findings.NewDistinct()
 	var mu sync.Mutex
 	done, undef, capped := 0, 0, false
+	respelled := 0
 	drive.Par(len(all), func(i int) {
 		if past(deadline) {
 			mu.Lock()
@@ -544,6 +545,28 @@ func C02() int {
 		done++
 		mu.Unlock()
 		distinct.Add(pv.Src)
+		if pv.Symptom == "" {
+			// the same program in other identifier spellings (isolation must not depend on how names look):
+			// one spelling per program in turn (quick), all of them (thorough)
+			for k, sp := range spellings {
+				if !r.Thorough() && k != i%len(spellings) {
+					continue
+				}
+				rp := renameProg(it.prog, sp.f)
+				rv := JudgeBash(rp, ProgOpts{})
+				mu.Lock()
+				done++
+				respelled++
+				mu.Unlock()
+				distinct.Add(rv.Src)
+				if rv.Symptom != "" && rv.Symptom != "undefined" && r.Violations() <= 40 {
+					rv = confirm(rp, ProgOpts{}, rv)
+					if rv.Symptom != "" {
+						r.Fail("prog="+it.name+" spelling="+sp.name+" symptom="+rv.Symptom, fmt.Sprintf("function program %s with %s identifiers: %s (%s)", it.name, sp.name, rv.Symptom, rv.Detail), progReplay(rv, nil))
+					}
+				}
+			}
+		}
 		if pv.Symptom == "undefined" {
 			mu.Lock()
 			undef++
@@ -568,15 +591,20 @@ func C02() int {
 			r.Fail("prog="+it.name+" symptom="+pv.Symptom, fmt.Sprintf("function program %s: %s (%s)", it.name, pv.Symptom, pv.Detail), progReplay(pv, nil))
 		}
 	})
-	r.Set("evaluations", done)
-	r.Set("distinct_nontrivial", distinct.Len())
-	r.Set("distinct_expected_outputs", outcomes.Len())
-	r.Set("skipped_undefined", undef)
 	r.Set("exhaustive", !capped)
 	if capped {
 		r.Set("cap_hit", "stopped at the internal deadline")
 	}
-	r.Set("rule", "every program built from function specs (parameter list over {x,y} x return arity x locals x write form x call form into the previous function), for 1 and 2 functions (3 in thorough), with globals g (before all functions, written in place), y (between f1 and f2) and x (after all functions, so x is reused as parameter/local), a fixed main that calls every function as statement, as value, in multi-value definition/assignment and performs simultaneous assignments; plus a handwritten typed/slice-by-reference family. Distinct by source text; every program prints all visible variables before/after every call.")
+	xd, xn, ok := crossRun(r, 2, deadline)
+	if !ok {
+		return 2
+	}
+	r.Set("evaluations", done+xd)
+	r.Set("distinct_nontrivial", distinct.Len()+xn)
+	r.Set("distinct_expected_outputs", outcomes.Len())
+	r.Set("programs_also_judged_in_another_identifier_spelling", respelled)
+	r.Set("skipped_undefined", undef)
+	r.Set("rule", "every program built from function specs (parameter list over {x,y} x return arity x locals x write form x call form into the previous function), for 1 and 2 functions (3 in thorough), with globals g (before all functions, written in place), y (between f1 and f2) and x (after all functions, so x is reused as parameter/local), a fixed main that calls every function as statement, as value, in multi-value definition/assignment and performs simultaneous assignments; plus a handwritten typed/slice-by-reference family. Distinct by source text; every program prints all visible variables before/after every call. Plus the function share of the cross-feature space (cross.go): statements that call functions, and every statement inside function contexts (called once, twice, for a result, with parameters), single, nested and as ordered pairs.")
 	r.Assumef("reference interpreter tsmodel with lexical frames (scalars by value, slices by reference)")
 	return finish(r)
 }
